@@ -521,6 +521,45 @@ def explicit(node, quirks=frozenset(), opts=None):
     return "".join(out)
 
 
+def pieces(node):
+    """The explicit form (no quirks) as [(markup piece, token)], token in the tree walkers' dict shape
+    (type/name/namespace/data): lets a caller drop individual tags (optional-tag omission by its own rules)."""
+    out = []
+    stack = [(node, 0, None, 0)]
+    while stack:
+        n, st, parent, idx = stack.pop()
+        if st == 1:
+            out.append(("</%s>" % n.name, {"type": "EndTag", "name": n.name, "namespace": n.ns}))
+            continue
+        if n.kind == "doc":
+            for k in range(len(n.children) - 1, -1, -1):
+                stack.append((n.children[k], 0, n, k))
+        elif n.kind == "doctype":
+            out.append(("<!DOCTYPE html>", {"type": "Doctype", "name": "html"}))
+        elif n.kind == "comment":
+            out.append(("<!--%s-->" % n.data, {"type": "Comment", "data": n.data}))
+        elif n.kind == "text":
+            if not n.data:
+                continue
+            pel = parent is not None and parent.kind == "el"
+            raw = pel and parent.ns == HTML and parent.name in RAW
+            d = n.data if raw else esc_text(n.data)
+            if idx == 0 and pel and parent.ns == HTML and parent.name in ("pre", "textarea", "listing") and d.startswith("\n"):
+                d = "\n" + d
+            out.append((d, {"type": "SpaceCharacters" if n.data[0] in " \t\n\x0c\r" else "Characters", "data": n.data}))
+        else:
+            void = n.ns == HTML and n.name in VOID
+            parts = ["<", n.name] + [' %s="%s"' % (attr_name(k), esc_attr(v)) for k, v in n.attrs] + [">"]
+            out.append(("".join(parts), {"type": "EmptyTag" if void else "StartTag", "name": n.name, "namespace": n.ns,
+                                         "data": dict(((None, attr_name(k)), v) for k, v in n.attrs)}))
+            if void:
+                continue
+            stack.append((n, 1, parent, idx))
+            for k in range(len(n.children) - 1, -1, -1):
+                stack.append((n.children[k], 0, n, k))
+    return out
+
+
 def flat(node):
     out = []
     stack = [(node, 0)]
